@@ -37,11 +37,12 @@ PROPS = {
         "functions": ["is_ambiguous", "filter.keep_noconst", "filter.keep_noambig", "filter.collect_types", "filter.weight_step", "filter.mask_cell",
                       "update_counts.count_pred", "new.count_pred", "new.zero_to_gap"],
         "kani": [("tables", ["oracle_bijective", "is_ambiguous_classification", "leaf_fns_all_bytes"]), ("wrappers", None), ("rowfragk", ["count_pred_all_bytes"])],
-        "bounded_quick": [{"group": "rowfragk", "name": "bounded_keep_noconst_len4", "bound": "rows of length <= 4 over 8 representative symbols"},
-                          {"group": "rowfragk", "name": "bounded_keep_noambig_len4", "bound": "rows of length <= 4 over 8 representative symbols"},
-                          {"group": "rowfragk", "name": "bounded_keep_noambig_or_const_len4", "bound": "rows of length <= 4 over 8 representative symbols"},
+        "bounded_quick": [{"group": "rowfragk", "name": "bounded_filter_row_step_len3", "bound": "one row of length <= 3 over 8 representative symbols; count, threshold <= 4; all filter types and flags", "timeout": 1500},
                           {"group": "ndarr", "name": "bounded_update_counts_1x2", "bound": "1 row x 2 samples, symbolic bytes, flag and stored count",
                            "args": ["-Z", "unstable-options", "--cbmc-args", "--unwindset", "memcmp.0:18"], "timeout": 1200}],
+        "bounded_thorough": [{"group": "rowfragk", "name": "bounded_keep_noconst_len4", "bound": "rows of length <= 4 over 8 representative symbols"},
+                             {"group": "rowfragk", "name": "bounded_keep_noambig_len4", "bound": "rows of length <= 4 over 8 representative symbols"},
+                             {"group": "rowfragk", "name": "bounded_keep_noambig_or_const_len4", "bound": "rows of length <= 4 over 8 representative symbols"}],
         "bounded": [{"group": "ndarr", "name": "bounded_update_counts_2x2", "bound": "2 rows x 2 samples, symbolic bytes, flag and stored counts",
                      "args": ["-Z", "unstable-options", "--cbmc-args", "--unwindset", "memcmp.0:18"], "timeout": 2400}],
     },
